@@ -78,6 +78,17 @@ func (dc *agentConnection) Read(b []byte) (int, error) {
 		return 0, ErrTimeout
 	case _, ok := <-dc.in:
 		if !ok {
+			// data that arrived before the end of the stream is still delivered:
+			// the reader can get here without having seen the wake-up for it
+			dc.m.Lock()
+			n := copy(b[:], dc.buff[0:])
+			dc.buff = dc.buff[n:]
+			dc.m.Unlock()
+
+			if n != 0 {
+				return n, nil
+			}
+
 			log.Errorf("Error reading from channel, return EOF")
 			return 0, io.EOF
 		}
